@@ -33,9 +33,13 @@ def run(ctx: Ctx):
     element_id(ctx)
     unknown_refs(ctx)
     element_transform_keys(ctx)
+    cascade_tables_model(ctx)
     from .common import generic_lints
 
     generic_lints(ctx)
+    from .common import shim_leaves_transforms_alone
+
+    shim_leaves_transforms_alone(ctx)
     from .common import nullable_key_agreement
 
     nullable_key_agreement(ctx)
@@ -626,3 +630,55 @@ def element_transform_keys(ctx: Ctx):
     ctx.count("element-transform key cases", n)
     ctx.ob("slots.keys-model", where, bad[:3] or f"{n} dicts (uniform and mixed spellings, stale and flagged keys)", "every key -> alias of the same item; unknown keys dropped; a flagged dict unchanged", not bad,
            "hide / rename apply to the same item whichever way - and in whichever company - its key is spelled")
+
+
+def cascade_tables_model(ctx: Ctx):
+    """The three parallel tables the cascade looks ids up in - aliases, raw element ids, sub-variable ids - hold, for EVERY item of
+    the dimension (inserted / derived items included), the alias, the element id and `value.id` of that item, in payload
+    order.  The lazyproperties are executed over the model dimensions of the cascade rule: a table that leaves out or blanks
+    some kind of item (None for derived ones) makes that spelling of those items resolve to nothing - or to another item."""
+    from ..dectab import DTop, ModelInterp, Raises, exec_function
+
+    ci = ctx.repo.cls(DIM, "_ElementIdShim")
+    n, bad, undec = 0, [], None
+    for with_ins in (False, True):
+        model = _model(with_ins)
+        items = model["items"]
+        want = {"_subvar_aliases": tuple(a for a, *_ in items), "_raw_element_ids": tuple(r for _a, r, *_ in items), "_subvar_ids": tuple(s for _a, _r, s, _i in items)}
+        for member, expected in want.items():
+            m = ctx.repo.lookup(ci, member)
+            if m is None or m.kind not in ("lazyproperty", "property"):
+                continue
+
+            def atoms(e, model=model):
+                t = u(e)
+                if t == "self._dimension_dict":
+                    return model["dimension_dict"]
+                if t == "self.dimension_type":
+                    return "MR_SUBVAR"
+                if isinstance(e, ast.Attribute) and isinstance(e.value, ast.Name) and e.value.id == "DT":
+                    return e.attr
+                raise KeyError
+
+            it = ModelInterp(atoms, {})
+            it.members = lambda name: (lambda mm: mm.node if mm is not None and mm.kind in ("lazyproperty", "property") else None)(ctx.repo.lookup(ci, name))
+            it.methods = lambda name: (lambda mm: mm.node if mm is not None and mm.kind in ("method", "staticmethod", "classmethod") else None)(ctx.repo.lookup(ci, name))
+            try:
+                got = exec_function(it, m.node, {})
+            except Raises as r:
+                bad.append(f"{member} ({'with' if with_ins else 'without'} inserted items) raises {r.etype}")
+                continue
+            except DTop as t_:
+                undec = f"{member}: {t_}"
+                continue
+            n += 1
+            if tuple(got) != expected:
+                bad.append(f"{member} ({'with' if with_ins else 'without'} inserted items) = {tuple(got)!r}, the items' own values are {expected!r}")
+    ctx.count("id tables executed over the model", n)
+    where = f"{DIM}::_ElementIdShim [_subvar_aliases, _raw_element_ids, _subvar_ids]"
+    if bad:
+        ctx.violated("cascade.tables.model", where, "; ".join(bad[:3]), "each table lists the alias / element id / value.id of every item in payload order", "a spelling of the blanked items resolves to nothing or to another item")
+    elif undec or n < 6:
+        ctx.undecided("cascade.tables.model", where, "DECTAB: " + str(undec), "each table lists its value for every item")
+    else:
+        ctx.held("cascade.tables.model", where, f"{n} (table, model) evaluations", "each table lists the alias / element id / value.id of every item in payload order")
